@@ -506,3 +506,10 @@ PROPS["C01"]["streams"] = PROPS["C01"]["streams"] + [G_IDS, CH_IDS]
 PROPS["C04"]["streams"] = PROPS["C04"]["streams"] + [G_IDS]
 PROPS["C08"]["streams"] = PROPS["C08"]["streams"] + [G_IDS]
 PROPS["C13"]["streams"] = PROPS["C13"]["streams"] + [dict(G_IDS, opts=dict(G_IDS["opts"], single_worker_pools=True))]
+
+# ------------------------------------------------------------------ C08: requests naming a type both by id and generically
+# (only here: on a busy worker the unchanged tree can fail half-way through such a request -- KF-C04 -- and the
+# run crashes; crashed runs are not judged by C08, completed ones are)
+G_MIXED = {"profile": "greedy", "opts": {"p_batch_loader": 0, "p_id_specific": 0.8, "p_mixed_request": 0.8,
+                                         "max_nodes": 5, "graphs": 2}}
+PROPS["C08"]["streams"] = PROPS["C08"]["streams"] + [G_MIXED]
